@@ -15,5 +15,5 @@ f='/verif/seeded/%s/meta.json'%name
 m=json.load(open(f)); m.setdefault('checks_run_against_it',{})[p]=line.strip(); json.dump(m,open(f,'w'),indent=1)
 PY
 done
-rm -rf /verif/build/evidence_alt/replay
+rm -rf /verif/build/evidence_alt_*/replay
 git -C /repo worktree remove --force $wt
